@@ -6,7 +6,7 @@ destination tree (content, size, whole-second mtime) and plan are compared with 
 left behind and printed.
 """
 import os, re, shutil, subprocess
-from bbox import Sandbox, Rng, hexs, HOST
+from bbox import Sandbox, Rng, hexs, HOST, CLI_BIN
 
 NAMES = ["a", "b.txt", "sp ace", "quo'te", "the 'final' draft", "''", "a'b'c.txt", "it\\'s", "x\\", "\\'\\'", 'dq"uote', "back\\slash", "dol$lar", "st*ar", "qm?ark", "-dash", "unié中",
          "notes..old", "v1..v2.diff", "..hidden", "trail..", "new\nline", "tab\tname", "semi;colon", "amp&ersand", "paren(s)", "a.copia", "x.tmp", "[br]", "~tilde", "#hash", "%p", "$(echo x)", "`bt`", ".tmp", ".env", "prod.env", "star", "stXXar", "qmaark", "[br", "b"]
@@ -430,6 +430,64 @@ def excluded_twin_section(res, count):
                 res["violations"].append(("exit-0-but-planned-file-not-delivered", f"{direction}: data/report.bin was not delivered and the run exited 0", rep))
             if rc == 0 and "old.txt" in d1:
                 res["violations"].append(("stale-file-not-deleted", f"{direction}: --delete left old.txt and exited 0", rep))
+
+
+def stale_staging_section(res, count):
+    """C04 / C14: a staging file `<dst>.copia-tmp` left by an earlier, failed or killed run — with the size and whole-second mtime the
+    source file has NOW but other bytes (the source was regenerated since) — lies in the destination. A run delivers the source's
+    bytes; it never publishes a staging file it did not write in this run (seed C04-O: a leftover that passes the quick check
+    against the source was renamed into place unread)."""
+    new = b"N" * 5000 + b" new contents\n"; old = b"O" * 5000 + b" old contents\n"
+    assert len(new) == len(old)
+    for direction in ("local", "pull"):
+        with Sandbox("C04st") as sb:
+            sroot = sb.path("src") if direction == "local" else os.path.join(sb.home, "rsrc")
+            droot = sb.path("dst")
+            src = {"data/f.bin": (new, 1_650_000_000, 0), "g.txt": (b"g\n", 1_650_000_001, 0)}
+            write_tree(sroot, src); os.makedirs(os.path.join(droot, "data"))
+            st = os.path.join(droot, "data", "f.bin.copia-tmp")
+            open(st, "wb").write(old); os.utime(st, (1_650_000_000, 1_650_000_000))
+            rc, out, err = sb.run(["sync", "-r", sroot if direction == "local" else f"{HOST}:rsrc", droot], timeout=60)
+            got = read_tree(droot)
+            count(f"stale-staging-file/{direction}")
+            rep = {"direction": direction, "rc": rc, "stdout": out.decode("utf-8", "replace")[-200:], "stderr": err.decode("utf-8", "replace")[-200:],
+                   "planted": "data/f.bin.copia-tmp with the source's size and mtime, other bytes"}
+            if rc == 0 and got.get("data/f.bin", (None,))[0] != new:
+                res["violations"].append(("exit-0-but-planned-file-not-delivered", f"{direction}: with a stale staging file in place the run exited 0 and data/f.bin does not hold the source's bytes", rep))
+
+
+def delayed_write_section(res, count):
+    """C14, pull and local: every write to ONE staging file is slow (400 ms each, injected with strace — a busy disk, a network file
+    system). Nothing fails. The delivered file must still carry the source's mtime and the immediate second run must send nothing
+    (seed C14-O: the pull loop handed its last chunk to tokio's background writer and went on to rename and stamp without a flush;
+    the late write re-stamped the file with the current time)."""
+    import subprocess
+    for direction in ("pull", "local"):
+        with Sandbox("C14dw") as sb:
+            sroot = os.path.join(sb.home, "rsrc") if direction == "pull" else sb.path("src")
+            droot = sb.path("dst"); os.makedirs(droot)
+            src = {"data.bin": (bytes(range(256)) * 1200, 1_500_000_000, 0), "a.txt": (b"a\n", 1_500_000_001, 0), "b.txt": (b"b\n", 1_500_000_002, 0)}
+            write_tree(sroot, src)
+            sarg = f"{HOST}:rsrc" if direction == "pull" else sroot
+            st = os.path.join(droot, "data.bin.copia-tmp")
+            cmd = ["strace", "-f", "-qq", "-o", "/dev/null", "-P", st, "-e", "trace=write,pwrite64", "-e", "inject=write,pwrite64:delay_enter=400000", CLI_BIN, "sync", "-r", sarg, droot]
+            try:
+                r = subprocess.run(cmd, env=sb.env, cwd=sb.dir, stdout=subprocess.PIPE, stderr=subprocess.PIPE, timeout=120)
+                rc1 = r.returncode
+            except subprocess.TimeoutExpired:
+                rc1 = "timeout"
+            import time as _t
+            _t.sleep(0.6)
+            d1 = read_tree(droot)
+            rc2, o2, e2 = sb.run(["sync", "-r", sarg, droot], timeout=60)
+            txt = o2.decode("utf-8", "replace") + e2.decode("utf-8", "replace")
+            plan = [ln for ln in txt.splitlines() if ln.startswith("Plan:")]
+            count(f"slow-staging-writes/{direction}")
+            rep = {"direction": direction, "rc1": rc1, "rc2": rc2, "second_run_plan": plan, "mtime_of_data.bin": d1.get("data.bin", (None, None))[1]}
+            if rc1 == 0 and d1.get("data.bin", (None, None))[:2] != src["data.bin"][:2]:
+                res["violations"].append(("delivered-file-mtime-not-the-sources", f"{direction}: after an exit-0 run with slow staging writes data.bin does not carry the source's bytes and mtime (mtime {d1.get('data.bin', (None, None))[1]})", rep))
+            if rc1 == 0 and plan and not plan[0].startswith("Plan: 0 to transfer") and "Already up to date" not in txt:
+                res["violations"].append(("second-run-not-a-no-op", f"{direction}: the immediate second run planned {plan}", rep))
 
 
 def deep_tree_section(rng, res, count):
@@ -1005,6 +1063,7 @@ def run(pid, tier, seed, rundir, model_run):
         split_listing_section(rng, thorough, res, count)
         write_limit_section(rng, thorough, res, count)
         comma_exclude_section(res, count)
+        stale_staging_section(res, count)
         big_listing_section(res, count)
     if pid == "C15":
         comma_exclude_section(res, count)
@@ -1013,6 +1072,8 @@ def run(pid, tier, seed, rundir, model_run):
     if pid == "C14":
         symlink_second_run_section(res, count)
         unresolvable_link_in_destination_section(res, count)
+        stale_staging_section(res, count)
+        delayed_write_section(res, count)
         big_listing_section(res, count)
         hardlinked_destination_section(res, count)
     if pid == "C19":
